@@ -1023,29 +1023,42 @@ def gen_batch(rng, n_models, per_model):
         spec = gen_model(rng, rng.choice(KINDS))
         m = build_model(spec)
         if m is None:
+            _MODEL_CACHE.pop(repr(spec), None)
             continue
         made += 1
         for _ in range(per_model):
             yield gen_case(rng, spec), m
+        _MODEL_CACHE.pop(repr(spec), None)
 
 
 def correspondence(ctx) -> CorrResult:
+    import re
+    import time as _t
     rng = ctx.rng
     res = CorrResult()
     n_models = ctx.scale(45, 1500)
     per_model = ctx.scale(5, 6)
-    items = []
+    per_shard = 8
     dist = {"method": {}, "terminal": {}, "initial_guess": {}, "kind": {}, "frames": {}, "plan": 0, "log_variables": 0,
             "status": {}, "simulate_raised": 0, "first_order_compared": 0, "residual_checks": 0,
             "max_residual": 0.0, "max_first_order_diff": 0.0}
     keyset = set()
     tol_fail = []
+    texts, shard_cases, pending = [], [], []
+    n_items = 0
+
+    def flush():
+        if pending:
+            texts.append(shard_text(pending))
+            shard_cases.append([_jsonable_case(c) for c, _ in pending])
+            pending.clear()
+
     for case, m in gen_batch(rng, n_models, per_model):
         rec = run_sim(case, m)
         if "error" in rec or "skip" in rec or not rec.get("frames_rec"):
             dist["simulate_raised"] += 1
             continue
-        items.append((case, rec))
+        n_items += 1
         spec = case["spec"]
         kind = ("backward_" if spec["backward"] else "") + ("linear" if spec["linear"] else "nonlinear")
         for k, v in (("method", case["method"]), ("terminal", case["terminal"]), ("initial_guess", case["initial_guess"]),
@@ -1057,6 +1070,12 @@ def correspondence(ctx) -> CorrResult:
             dist["status"][str(st)] = dist["status"].get(str(st), 0) + 1
         if len(rec["frames_rec"]) >= 2 or case["plan"]:
             keyset.add(repr(_jsonable_case(case)))
+        if len(res.samples) < 3:
+            res.samples.append({"model": model_source(spec),
+                                "case": {k: v for k, v in _jsonable_case(case).items() if k != "spec"},
+                                "frames": [list(f[:6]) for f in rec["create"]["frames"]],
+                                "wrt_spots_first_frame": rec["frames_rec"][0]["wrt_spots"][:12],
+                                "status": [str(s) for s in rec["info"]["exit_status"]]})
         # tolerance part of the tie: the property residuals and the first-order path
         fails, st = check_property(case, rec)
         dist["first_order_compared"] += st["fo_compared"]
@@ -1064,8 +1083,13 @@ def correspondence(ctx) -> CorrResult:
         dist["max_residual"] = max(dist["max_residual"], st["max_residual"])
         dist["max_first_order_diff"] = max(dist["max_first_order_diff"], st["max_fo_diff"])
         for f in fails:
-            tol_fail.append((case, f))
-    res.evaluations = len(items)
+            if len(tol_fail) < 50:
+                tol_fail.append((_jsonable_case(case), f))
+        pending.append((case, rec))
+        if len(pending) >= per_shard:
+            flush()
+    flush()
+    res.evaluations = n_items
     res.distinct_nontrivial = len(keyset)
     res.distribution = dist
     res.rule = ("one generated model (1-4 transition variables, lags/leads up to 2, linear / quadratic / log-variable "
@@ -1075,22 +1099,14 @@ def correspondence(ctx) -> CorrResult:
                 "(stacked_time / period_by_period, terminal and initial_guess in {first_order, data}); everything the call "
                 "builds (frames, wrt_spots, index maps, terminator indices, stacked residual, frame arrays, final array) is "
                 "compared with the model evaluated in Coq; non-trivial = at least two frames or a plan; distinct = distinct case")
-    res.samples = [{"model": model_source(c["spec"]), "case": {k: v for k, v in _jsonable_case(c).items() if k != "spec"},
-                    "frames": [list(f[:6]) for f in r["create"]["frames"]],
-                    "wrt_spots_first_frame": r["frames_rec"][0]["wrt_spots"][:12],
-                    "status": [str(s) for s in r["info"]["exit_status"]]} for c, r in items[:3]]
-    import time as _t
     t_sim = _t.time() - ctx.t0
-    per_shard = max(4, min(25, -(-len(items) // (2 * core.NCPU))))
-    shards = [items[i:i + per_shard] for i in range(0, len(items), per_shard)]
-    texts = [shard_text(sh) for sh in shards]
     t_a = _t.time()
     results = core.run_cases(ctx, texts, timeout=1500)
-    ctx.log(f"correspondence: {len(items)} simulations recorded by {t_sim:.0f}s after start; "
+    ctx.log(f"correspondence: {n_items} simulations recorded by {t_sim:.0f}s after start; "
             f"{len(texts)} Coq shards ({sum(len(t) for t in texts) // 1000} kB) evaluated in {_t.time() - t_a:.0f}s")
     res.shards = len(texts)
     for k, (ok, out) in enumerate(results):
-        sh = shards[k]
+        sh = shard_cases[k]
         if not ok:
             res.disagreements.append(Disagreement(f"cases shard {k} does not evaluate", None, out[-800:], None))
             continue
@@ -1101,19 +1117,19 @@ def correspondence(ctx) -> CorrResult:
         body = bodies[0]
         if body in ("[]", "nil"):
             continue
-        import re
+        found = 0
         for mm in re.finditer(r"\((\d+)%nat, \[(.*?)\]\)(?=; \(\d+%nat, \[|\]$)", body):
             i = int(mm.group(1))
             checks = re.findall(r"\((\d+)%nat, (\d+)%nat\)", mm.group(2))
-            case = sh[i][0]
+            case = sh[i]
             what = "; ".join(f"frame {a}: {CHECK_NAMES.get(int(b), b)}" if int(a) != 999 else CHECK_NAMES.get(int(b), b)
                              for a, b in checks[:6])
-            res.disagreements.append(Disagreement(f"{case['method']}: {what}", _jsonable_case(case),
-                                                  "model differs on: " + what, None))
-        if not res.disagreements and body not in ("[]", "nil"):
+            res.disagreements.append(Disagreement(f"{case['method']}: {what}", case, "model differs on: " + what, None))
+            found += 1
+        if not found:
             res.disagreements.append(Disagreement(f"cases shard {k}: unparsed failures", None, body[:600], None))
     for case, f in tol_fail[:20]:
-        res.disagreements.append(Disagreement(f"property check: {f.key}", _jsonable_case(case), f.what,
+        res.disagreements.append(Disagreement(f"property check: {f.key}", case, f.what,
                                               {"observed": f.observed, "required": f.required}))
     res.notes.append(f"solver statuses over all frames: {dist['status']}")
     return res
